@@ -45,6 +45,8 @@ pub enum CapOpt {
   Absent,
   Same,
   Plus64,
+  /// smaller than the file (just above the header): only given to opens that must be refused
+  Smaller,
 }
 
 pub fn open_opts(cfg: &Cfg, cap: CapOpt, create: bool) -> Options {
@@ -53,6 +55,7 @@ pub fn open_opts(cfg: &Cfg, cap: CapOpt, create: bool) -> Options {
     CapOpt::Absent => o.maybe_capacity(None),
     CapOpt::Same => o,
     CapOpt::Plus64 => o.with_capacity(cfg.cap + 64),
+    CapOpt::Smaller => o.with_capacity(cfg.data_offset() as u32 + 16),
   }
 }
 
@@ -252,6 +255,10 @@ fn c09_files<A: Subject>(run: &Run, cfg: &Cfg, thorough: bool) {
             c09_try::<A>(run, &b, &p, cfg, mode, *capo, *efl, *em, &what, i != 0);
           }
         }
+        if i != 0 && (thorough || v < 4 || v > 252 || v % 16 == 5) {
+          // a refused open that names a capacity below the length of the file must not cut the file either
+          c09_try::<A>(run, &b, &p, cfg, mode, CapOpt::Smaller, cfg.fl, cfg.magic, &what, true);
+        }
       }
     }
     run.states.insert(hash_of(&(A::SYNC, cfg, i)));
@@ -282,6 +289,7 @@ fn c09_files<A: Subject>(run: &Run, cfg: &Cfg, thorough: bool) {
       for (efl, em) in expects.iter().skip(1) {
         for mode in Mode::ALL {
           c09_try::<A>(run, &marked, &p, cfg, mode, CapOpt::Same, *efl, *em, "interrupted-removal file, other expectation", true);
+          c09_try::<A>(run, &marked, &p, cfg, mode, CapOpt::Smaller, *efl, *em, "interrupted-removal file, other expectation", true);
         }
       }
     }
@@ -650,7 +658,11 @@ fn c05_case_t<A: Subject>(run: &Run, cfg: &Cfg, st: &Start, word: &[Op], cut: us
       Fl::Pessimistic => Fl::Optimistic,
     };
   }
-  let o = open_opts(&ocfg, capo, create);
+  let mut o = open_opts(&ocfg, capo, create);
+  if !mode.writable() && cut % 2 == 1 {
+    // the read-only constructors ignore the creation flags: the options the file was created with reopen it
+    o = o.with_create(true).with_create_new(true);
+  }
   let a2: A = match open::<A>(&path, o, mode) {
     Ok(a) => a,
     Err(e) => {
